@@ -15,5 +15,6 @@ CONSTANTS
   OrderedIteration = FALSE
   SummaryStateless = TRUE
   WeightsRebuilt = TRUE
+  FeedCopied = TRUE
 INVARIANT Functional
 CHECK_DEADLOCK FALSE
